@@ -2,6 +2,9 @@ package pure
 
 import (
 	"bytes"
+	"fmt"
+	"io/ioutil"
+	"os"
 	"net/url"
 	"testing"
 
@@ -30,6 +33,10 @@ func fuzzDecode(f *testing.F, name string, seeds ...string) {
 			*bp = backing[8:12:24]
 		}
 		in := append([]byte(nil), data...)
+		if d := os.Getenv("VERIF_FUZZ_TRACE"); d != "" {
+			// diagnosis of worker deaths: the input being run is on disk when the process dies
+			ioutil.WriteFile(fmt.Sprintf("%s/last.%d", d, os.Getpid()), []byte(fmt.Sprintf("%d %x", dsel, data)), 0644)
+		}
 		func() {
 			defer func() {
 				if p := recover(); p != nil {
